@@ -49,17 +49,15 @@ Definition has_target (e : senv) (t : string) : bool :=
   else if String.eqb t "*" then true
   else existsb (String.eqb t) (se_targets e).
 
-(** addSubscription: the queries registered for a STREAM request.  A nil
-    entry path is skipped ([continue]); nothing here can fail. *)
+(** addSubscription: the queries registered for a STREAM request.  An entry
+    without a path reads, through the nil-safe getters, as the empty path
+    (since commit 601ff89; it used to be skipped); nothing here can fail. *)
 Definition stream_queries (r : subreq) : list path :=
   let prefix := to_strings true (gp_of_opt (sr_prefix r)) in
-  flat_map (fun sub =>
-    match sub with
-    | None => []
-    | Some p =>
-        [ (if String.eqb (gp_origin (gp_of_opt (sr_prefix r))) "" && negb (String.eqb (gp_origin p) "")
-           then prefix ++ [gp_origin p] else prefix) ++ to_strings false p ]
-    end) (sr_subs r).
+  map (fun sub =>
+    let p := gp_of_opt sub in
+    (if String.eqb (gp_origin (gp_of_opt (sr_prefix r))) "" && negb (String.eqb (gp_origin p) "")
+     then prefix ++ [gp_origin p] else prefix) ++ to_strings false p) (sr_subs r).
 
 (** processSubscription: CompletePath for every entry, in order; the first
     failure ends the RPC *)
